@@ -14,14 +14,15 @@ Ev == TraceLog[l]
 DevOn(name) == ("VERIF_DEV_" \o name) \in DOMAIN IOEnv
 
 AnnOf(e) == [style |-> e.style, dateonly |-> e.dateonly, Y |-> e.Y, M |-> e.M, D |-> e.D, hh |-> e.hh, mm |-> e.mm, ss |-> e.ss,
-             fsep |-> e.fsep, frac |-> e.frac, zlit |-> e.zlit, zsign |-> e.zsign, zh |-> e.zh, zm |-> e.zm, zcolon |-> e.zcolon]
+             fsep |-> e.fsep, frac |-> e.frac, zlit |-> e.zlit, zsign |-> e.zsign, zh |-> e.zh, zm |-> e.zm, zcolon |-> e.zcolon, nowd |-> e.nowd]
 
 TInitEv == Ev.e = "Init" /\ Ev.how \in {"millis", "secs"} /\ Init(Ev.d, Ev.s, Ev.ms, Ev)
 TFormat == Ev.e = "Format" /\ Format(Ev.fmt, Ev.short = 1, Ev.cap, Ev.pre, Ev.rc, Ev.out)
 TParseLast == Ev.e = "ParseLast" /\ ParseBack(Ev.fmt, Ev.text, Ev.rc, Ev)
 TParseText == Ev.e = "ParseText" /\ ParseText(Ev.fmt, AnnOf(Ev), Ev.text, Ev.rc, Ev)
 (* the calendar accessors are compared in UTC and the local-time branch is only exercised with TZ=UTC *)
-TReset == Ev.e = "Reset" /\ Chk(Ev.tz = "UTC") /\ cur' = NoCur /\ last' = NoLast
+TReset == Ev.e = "Reset" /\ cur' = NoCur   \* (Ev.tz: the zone of the process, which nothing judged here may depend on)
+          /\ last' = NoLast
 TEnd == Ev.e = "End" /\ Ev.live = 0 /\ UNCHANGED dvars
 
 -----------------------------------------------------------------------------
